@@ -579,7 +579,7 @@ func setOffsetInAdaptationSet(cfg *ResponseConfig, as *m.AdaptationSetType) (ato
 			as.ProducerReferenceTimes = createProducerReferenceTimes(cfg.StartTimeS)
 		}
 	}
-	atoMS = int(1000 * ato)
+	atoMS = int(math.Round(1000 * ato))
 	return atoMS, nil
 }
 
